@@ -49,7 +49,9 @@ SCALARS_OPTYX = [("C", 0.75), X, ("bin", "+", X, Y), ("bin", "*", ("c", 2), X), 
                  ("bin", "+", ("bin", "*", ("c", 3), ("idx", ("vvar", "q", 11), 2)), ("idx", ("vvar", "q", 11), 10)),
                  ("sum", V3), ("dot", V3, W3), ("bin", "-", ("bin", "**", X, ("c", 2)), Y), ("idx", V3, 1)]
 VECTORS_PLAIN = [("lst", (0.75, 2.0, -0.5)), ("arr", (0.75, 2.0, -0.5)), ("arr", (1.0, 2.0)), ("lst", (1.0, 2.0, 3.0, 4.0)),
-                 ("arr", (0.75, 2.0, -0.5), "strided"), ("arr", (0.75, 2.0, -0.5), "reversed-view"), ("arr", (2, 0, -1), "int")]
+                 ("arr", (0.75, 2.0, -0.5), "strided"), ("arr", (0.75, 2.0, -0.5), "reversed-view"), ("arr", (2, 0, -1), "int"),
+                 # "no bound here" entries: +-inf inside the data (x <= [1, inf, 3] bounds x[0] and x[2] only)
+                 ("arr", (1.0, float("inf"), 3.0)), ("lst", (float("-inf"), 0.5, float("-inf")))]
 VECTORS_OPTYX = [V3, W3, ("slice", V4, 1, 4, None), ("slice", ("vvar", "q", 11), 2, None, 4),   # q[2], q[6], q[10]: natural != lexicographic order ("slice", V3, None, None, -1), ("vbin", "+", V3, ("c", 1)),
                  ("vbin", "*", V3, W3), ("rvbin", "-", ("c", 2), V3), ("mv", A23, V3), V4,
                  ("vneg", V3), ("row", M23, 0, None, None, None), ("vbin", "**", ("vbin", "+", V3, ("c", 0)), ("c", 2))]
